@@ -76,12 +76,15 @@ var vhNames = []string{"k0", "k1"}
 var vhRoleNames = []string{"r0"}
 
 func vhInit() {
+	vhNames = []string{"k0", "k1"}
+	vhRoleNames = []string{"r0"}
 	if vhTier() > 0 {
-		vhNames = []string{"k0", "k1", "k2"}
-		vhRoleNames = []string{"r0", "r1"}
-	} else {
-		vhNames = []string{"k0", "k1"}
-		vhRoleNames = []string{"r0"}
+		// thorough: three keys with one role, or two keys with two roles
+		if vhConcretize(vhInt("shape", 0, 1), 2) == 0 {
+			vhNames = []string{"k0", "k1", "k2"}
+		} else {
+			vhRoleNames = []string{"r0", "r1"}
+		}
 	}
 }
 
